@@ -40,8 +40,8 @@
 EXTENDS Naturals, Sequences, FiniteSets, TLC
 
 CONSTANTS WithArg,      \* TRUE: generator<int,int>, FALSE: generator<int>
-          BodyKinds,    \* subset of {"yield","yt","yv","ym","ynull","aready","apend","throw","return"}
-          Styles,       \* subset of {"sync","coawait","future","begin","inc","postinc"}
+          BodyKinds,    \* subset of {"yield","yt","yv","ym","ynull","aready","apend","return"} \cup ThrowKinds
+          Styles,       \* subset of {"sync","coawait","future","begin","inc","postinc","kbool","kco"}
           MaxBody,      \* bound on body script length (the last step is forced to end the body)
           MaxAcc,       \* bound on the number of consumer accesses
           MaxAfterEnd,  \* bound on accesses made after the first end/exception indication
@@ -53,6 +53,10 @@ CONSTANTS WithArg,      \* TRUE: generator<int,int>, FALSE: generator<int>
                         \* iterator_postincrement_moves_item) -- PayloadIntact is then violated
 
 ASSUME WithArg => Styles \cap {"begin", "inc", "postinc"} = {}   \* begin() calls next() without argument: static_assert
+(* a KEPT next() object carries no argument of its own: next(arg) stores the pointer to the argument when the object is made
+   (set_arg, generator.h:395-403) and every hand-over clears it (:152), so awaiting the object again would resume a body
+   that reads a null argument: reuse is only meaningful for a generator without argument *)
+ASSUME WithArg => Styles \cap {"kbool", "kco"} = {}
 ASSUME ~WithArg => "ynull" \notin BodyKinds
 
 VARIABLES pr,        \* the promise's hand-over record
@@ -69,13 +73,17 @@ VARIABLES pr,        \* the promise's hand-over record
           it,        \* generator_iterator::_next of the consumer's iterator: "none" | "true" | "false"
           alive,     \* the generator object exists
           pc,        \* code site to run next, "idle" = no library code on any stack
+          nx,        \* the consumer's KEPT next() object (`auto nx = gen.next();` reused for several accesses): "none" no such
+                     \* object; "unknown" / "item": its cached flag next_awt::_state is false / true (generator.h:343);
+                     \* "stale": true, but the generator was stepped past that item by other means since
           pay        \* payload: the yielded objects.  var/moved: content and moved-from flag of the body's own named
                      \* variable; rvar: _ret points at that variable (else at a temporary / a dying local);
                      \* cp, mv: copy / move constructions of the value type made so far; ylog: contents yielded;
                      \* on: object-level operations made; octor, odtor: constructions / destructions of the RAII local
-                     \* of the OTHER generators those operations replaced
+                     \* of the OTHER generators those operations replaced; ek: the kind of exception that left the
+                     \* body ("none": none did)
 
-vars == <<pr, bst, pendk, nawait, bscript, cscript, obs, got, finAt, loc, par, it, alive, pc, pay>>
+vars == <<pr, bst, pendk, nawait, bscript, cscript, obs, got, finAt, loc, par, it, alive, pc, pay, nx>>
 
 (* obs[i].r, what access i reported:                                                        *)
 (*   "pending"  nothing yet (access in progress, or its future / co_await is outstanding)    *)
@@ -83,7 +91,12 @@ vars == <<pr, bst, pendk, nawait, bscript, cscript, obs, got, finAt, loc, par, i
 (*   "end"      end of sequence: next()/co_await next()/iterator gave false, the future of   *)
 (*              gen() resolved without value; v = what value() returned on top (must be 0 =  *)
 (*              value_not_ready_exception)                                                   *)
-(*   "exc"      the exception that left the body (value() / the future rethrows it)          *)
+(*   "exc"      the exception that left the body (value() / the future rethrows it); v =     *)
+(*              ExcCode of its kind: the consumer catches THE exception object the body threw *)
+(*   "again"    a conversion to bool of the kept next() object whose state is known (an item  *)
+(*              or exception is loaded) does not advance (generator.h:297): the consumer      *)
+(*              reads the item it already has once more; v = that item (900 + ExcCode: the    *)
+(*              exception again)                                                              *)
 (*   "nomore"   the access itself threw no_more_values_exception: what the code does for     *)
 (*              gen() after the end and for every access after an exception was reported     *)
 (*              (_done stays false then, generator.h:178-183, so the h.done() tests fire)    *)
@@ -94,8 +107,25 @@ vars == <<pr, bst, pendk, nawait, bscript, cscript, obs, got, finAt, loc, par, i
 (*   "future" gen() -> future<T> (looked at when ready, waited for, or co_awaited);          *)
 (*   "begin" it = gen.begin();  "inc" ++it;  "postinc" it++  (each followed by it != end()   *)
 (*   and *it; begin + inc runs are what a range-for executes)                                *)
+(*   "kbool" if (nx) gen.value();  "kco" co_await nx;  on ONE object `auto nx = gen.next()`   *)
+(*   the consumer keeps and reuses (made at the first such access, dropped with the generator *)
+(*   object it refers to).  Every co_await of it asks for the next item (await_ready :314     *)
+(*   looks at done() only); a conversion to bool asks for one only while the object's state   *)
+(*   is unknown (:296-301), so `if (nx)` after a successful `if (nx)` / `co_await nx` is      *)
+(*   a re-read ("again").  A true cached state describes the generator only as long as every  *)
+(*   access since went through the object: a conversion on a "stale" state is not generated   *)
+(*   (the consumer would be told about an item that is long gone); co_await of it is.         *)
 
-SyncStyles == {"sync", "begin", "inc", "postinc"}
+SyncStyles == {"sync", "begin", "inc", "postinc", "kbool"}
+AsyncStyles == {"coawait", "kco"}
+KeptStyles == {"kbool", "kco"}
+(* what may leave the body: an application exception type derived from std::exception ("throw"), the library's own
+   exception types -- which is what a body gets that steps a finished source generator once more, reads a dropped
+   future, ... and does not catch -- and a type that is not derived from std::exception.  unhandled_exception
+   (generator.h:178) stores whatever it is. *)
+ThrowKinds == {"throw", "thr_nomore", "thr_cancel", "thr_notready", "thr_nolonger", "thr_nonstd"}
+ExcCode(k) == CASE k = "throw" -> 1 [] k = "thr_nomore" -> 2 [] k = "thr_cancel" -> 3 [] k = "thr_notready" -> 4
+                [] k = "thr_nolonger" -> 5 [] k = "thr_nonstd" -> 6 [] OTHER -> 0
 ArgVal(i) == IF WithArg THEN 100 + i ELSE 0
 Ob(r, v, p) == [r |-> r, v |-> v, p |-> p]
 (* ways to yield: "yield" a fresh object with content n (n-th co_yield; the replayer alternates a local variable
@@ -113,7 +143,8 @@ Init ==
     /\ loc = [ctor |-> 0, dtor |-> 0] /\ par = 1
     /\ it = "none" /\ alive = TRUE /\ pc = "idle"
     /\ pay = [var |-> 0, moved |-> FALSE, rvar |-> FALSE, cp |-> 0, mv |-> 0, ylog |-> <<>>,
-              on |-> 0, octor |-> 0, odtor |-> 0]
+              on |-> 0, octor |-> 0, odtor |-> 0, ek |-> "none"]
+    /\ nx = "none"
 
 -----------------------------------------------------------------------------
 (* consumer side *)
@@ -125,10 +156,18 @@ ValueProbe(p) == IF p.exp THEN "exc" ELSE IF p.ret # 0 THEN "val" ELSE "notready
    next_awt::await_resume (generator.h:329) gives !done; if true the consumer reads value();
    if false it still probes value() (must throw value_not_ready_exception: v = 0; 999 = it threw
    the body's exception) *)
+ExcV == ExcCode(pay.ek)
 ObsNext(p, prev) ==
     IF ~p.done
-      THEN Ob(ValueProbe(p), IF ValueProbe(p) = "val" THEN p.ret ELSE 0, prev)
+      THEN Ob(ValueProbe(p), IF ValueProbe(p) = "val" THEN p.ret ELSE IF ValueProbe(p) = "exc" THEN ExcV ELSE 0, prev)
       ELSE Ob("end", IF p.exp THEN 999 ELSE p.ret, prev)
+(* _state after next_awt::await_resume (:329-332) *)
+NxAfter(p) == IF p.done THEN "unknown" ELSE "item"
+(* the kept object is made at the first access through it *)
+NxMade == IF nx = "none" THEN "unknown" ELSE nx
+(* an access that does not go through the kept object leaves its cached flag alone: a true flag then no longer
+   describes the generator ("stale": _state is still true) *)
+NxOther == IF nx = "item" THEN "stale" ELSE nx
 
 EndCount == Cardinality({i \in 1..Len(obs) : obs[i].r \in {"end", "exc", "nomore"}})
 
@@ -141,27 +180,35 @@ CanAccess ==
 (* next(args...) [set_arg, generator.h:395-403] followed by next_awt::operator bool
    (generator.h:296-301) and next_sync (generator.h:219-236) up to h.resume(); the same code is
    reached from generator::begin (:357), generator_iterator::operator++ (iterator.h:38) and
-   operator++(int) (iterator.h:60, which reads value() first) *)
+   operator++(int) (iterator.h:60, which reads value() first), and from a conversion of the kept object ("kbool") *)
 NextSync(style) ==
     /\ CanAccess /\ style \in Styles \cap SyncStyles
     /\ style \in {"inc", "postinc"} => it = "true"                       \* incrementable iterator
     /\ style = "postinc" => (obs # <<>> /\ obs[Len(obs)].r = "val")        \* dereferenceable iterator
+    /\ style = "kbool" => nx # "stale"                                    \* no conversion on a stale state
     /\ LET i == Len(cscript) + 1
            p == IF style = "postinc" THEN pr.ret ELSE 0
            pr1 == [pr EXCEPT !.arg = ArgVal(i)]
+           k == style = "kbool"
        IN /\ cscript' = Append(cscript, style)
-          /\ IF pr.done
+          /\ IF k /\ nx = "item"             \* if (_state) return true (:297): nothing is asked for
+               THEN /\ obs' = Append(obs, Ob("again", IF pr.exp THEN 900 + ExcV ELSE pr.ret, 0))
+                    /\ UNCHANGED <<pr, it, pc, nx>>
+               ELSE IF pr.done
                THEN /\ obs' = Append(obs, ObsNext(pr1, p))
-                    /\ it' = IF style = "sync" THEN it ELSE "false"
+                    /\ it' = IF style \in {"sync", "kbool"} THEN it ELSE "false"
                     /\ pr' = pr1
+                    /\ nx' = IF k THEN "unknown" ELSE NxOther
                     /\ UNCHANGED pc
                ELSE IF bst = "final"          \* h.done(): throw no_more_values_exception (:225)
                THEN /\ obs' = Append(obs, Ob("nomore", 0, p))
                     /\ pr' = pr1
+                    /\ nx' = IF k THEN NxMade ELSE NxOther
                     /\ UNCHANGED <<it, pc>>
                ELSE /\ obs' = Append(obs, Ob("pending", 0, p))
                     /\ pr' = [pr1 EXCEPT !.block = FALSE, !.caller = "internal", !.ifn = "sync"]
                     /\ pc' = "body"
+                    /\ nx' = IF k THEN NxMade ELSE NxOther
                     /\ UNCHANGED it
     \* it++ takes the current item first: storage z{std::move(_gen->value())}, iterator.h:61
     /\ pay' = IF style # "postinc" THEN pay
@@ -170,23 +217,29 @@ NextSync(style) ==
                 ELSE [pay EXCEPT !.cp = @ + 1]
     /\ UNCHANGED <<bst, pendk, nawait, bscript, got, finAt, loc, par, alive>>
 
-(* co_await gen.next(args...): await_ready (:314), await_suspend -> next_async (:319, :204-215);
-   note next_async stores _caller before it tests h.done() *)
-NextAsync ==
-    /\ CanAccess /\ "coawait" \in Styles
+(* co_await gen.next(args...) / co_await of the kept object ("kco"): await_ready (:314), await_suspend -> next_async
+   (:319, :204-215); note next_async stores _caller before it tests h.done().  await_ready does not look at the
+   object's cached state: every co_await asks for the next item; await_resume (:329) refreshes the state, an
+   exception out of await_suspend leaves it as it was *)
+NextAsync(style) ==
+    /\ CanAccess /\ style \in Styles \cap AsyncStyles
     /\ LET i == Len(cscript) + 1
            pr1 == [pr EXCEPT !.arg = ArgVal(i)]
-       IN /\ cscript' = Append(cscript, "coawait")
+           k == style = "kco"
+       IN /\ cscript' = Append(cscript, style)
           /\ IF pr.done
                THEN /\ obs' = Append(obs, ObsNext(pr1, 0))
                     /\ pr' = pr1
+                    /\ nx' = IF k THEN "unknown" ELSE NxOther
                     /\ UNCHANGED pc
                ELSE IF bst = "final"
                THEN /\ obs' = Append(obs, Ob("nomore", 0, 0))
                     /\ pr' = [pr1 EXCEPT !.caller = "awt"]
+                    /\ nx' = IF k THEN NxMade ELSE NxOther
                     /\ UNCHANGED pc
                ELSE /\ obs' = Append(obs, Ob("pending", 0, 0))
                     /\ pr' = [pr1 EXCEPT !.caller = "awt"]
+                    /\ nx' = IF k THEN NxMade ELSE NxOther
                     /\ pc' = "body"
     /\ UNCHANGED <<bst, pendk, nawait, bscript, got, finAt, loc, par, it, alive, pay>>
 
@@ -203,6 +256,7 @@ NextFuture ==
                ELSE /\ obs' = Append(obs, Ob("pending", 0, 0))
                     /\ pr' = [pr1 EXCEPT !.awaiting = i, !.caller = "internal", !.ifn = "future"]
                     /\ pc' = "body"
+    /\ nx' = NxOther
     /\ UNCHANGED <<bst, pendk, nawait, bscript, got, finAt, loc, par, it, alive, pay>>
 
 -----------------------------------------------------------------------------
@@ -215,7 +269,7 @@ BodyResume ==
     /\ bst' = "run"
     /\ loc' = IF bst = "init" THEN [loc EXCEPT !.ctor = @ + 1] ELSE loc
     /\ got' = IF bst = "yield" /\ WithArg THEN Append(got, [a |-> Len(cscript), v |-> pr.arg]) ELSE got
-    /\ UNCHANGED <<pr, pendk, nawait, bscript, cscript, obs, finAt, par, it, alive, pc, pay>>
+    /\ UNCHANGED <<pr, pendk, nawait, bscript, cscript, obs, finAt, par, it, alive, pc, pay, nx>>
 
 (* where control goes when the body suspends without handing anything back: to the blocked sync
    caller's _block.wait (:235) or out of the library *)
@@ -224,9 +278,9 @@ AfterSuspend == IF pr.caller = "internal" /\ pr.ifn = "sync" THEN "syncwait" ELS
 BodyStep(kind) ==
     /\ pc = "body" /\ bst = "run" /\ kind \in BodyKinds
     /\ Len(bscript) < MaxBody
-    /\ Len(bscript) = MaxBody - 1 => kind \in {"return", "throw"}
+    /\ Len(bscript) = MaxBody - 1 => kind \in {"return"} \cup ThrowKinds
     /\ bscript' = Append(bscript, kind)
-    /\ kind \notin YieldKinds => UNCHANGED pay
+    /\ kind \notin YieldKinds \cup ThrowKinds => UNCHANGED pay
     /\ CASE kind \in YieldKinds -> \* yield_value(Ret &) / yield_value(Ret &&): _ret = &x (:184-191)
               LET n == NYield + 1
                   c == IF kind = "yield" THEN n ELSE pay.var * 10 + n
@@ -246,9 +300,10 @@ BodyStep(kind) ==
               /\ bst' = "await" /\ pendk' = nawait + 1 /\ nawait' = nawait + 1
               /\ pc' = AfterSuspend
               /\ UNCHANGED <<pr, got, finAt, loc>>
-         [] kind = "throw" ->       \* locals unwound, unhandled_exception (:178)
+         [] kind \in ThrowKinds -> \* locals unwound, unhandled_exception (:178): _exp = whatever it is
               /\ loc' = [loc EXCEPT !.dtor = @ + 1]
               /\ pr' = [pr EXCEPT !.exp = TRUE]
+              /\ pay' = [pay EXCEPT !.ek = kind]
               /\ finAt' = Len(cscript)
               /\ pc' = "fin"
               /\ UNCHANGED <<bst, pendk, nawait, got>>
@@ -258,7 +313,7 @@ BodyStep(kind) ==
               /\ finAt' = Len(cscript)
               /\ pc' = "fin"
               /\ UNCHANGED <<bst, pendk, nawait, got>>
-    /\ UNCHANGED <<cscript, obs, par, it, alive>>
+    /\ UNCHANGED <<cscript, obs, par, it, alive, nx>>
 
 (* final_suspend (:174-177) *)
 FinalSuspend ==
@@ -266,7 +321,7 @@ FinalSuspend ==
     /\ pr' = [pr EXCEPT !.ret = 0]
     /\ bst' = "final"
     /\ pc' = "ysusp"
-    /\ UNCHANGED <<pendk, nawait, bscript, cscript, obs, got, finAt, loc, par, it, alive, pay>>
+    /\ UNCHANGED <<pendk, nawait, bscript, cscript, obs, got, finAt, loc, par, it, alive, pay, nx>>
 
 (* yield_suspend::await_suspend (:150-155): _arg = nullptr, caller = exchange(_caller, nullptr),
    caller->resume() *)
@@ -278,14 +333,14 @@ YieldSuspend ==
                [] pr.caller = "internal" /\ pr.ifn = "future" -> "unb_fut"
                [] pr.caller = "awt" -> "res_awt"
                [] OTHER -> "crash"          \* null _caller dereferenced
-    /\ UNCHANGED <<pendk, nawait, bscript, cscript, obs, got, finAt, loc, par, it, alive, pay>>
+    /\ UNCHANGED <<pendk, nawait, bscript, cscript, obs, got, finAt, loc, par, it, alive, pay, nx>>
 
 (* resume_fn_sync -> unblock_sync (:104-108, :123-126) *)
 UnblockSync ==
     /\ pc = "unb_sync"
     /\ pr' = [pr EXCEPT !.block = TRUE]
     /\ pc' = "syncwait"
-    /\ UNCHANGED <<bst, pendk, nawait, bscript, cscript, obs, got, finAt, loc, par, it, alive, pay>>
+    /\ UNCHANGED <<bst, pendk, nawait, bscript, cscript, obs, got, finAt, loc, par, it, alive, pay, nx>>
 
 (* _block.wait(false) passes (:235); back in the adapter: await_resume (:300, :329), the consumer
    looks at the result; iterators keep the flag (iterator.h:29,39,62) *)
@@ -294,7 +349,8 @@ SyncReturn ==
     /\ LET i == Len(cscript)
            o == ObsNext(pr, obs[i].p)
        IN /\ obs' = [obs EXCEPT ![i] = o]
-          /\ it' = IF cscript[i] = "sync" THEN it ELSE (IF pr.done THEN "false" ELSE "true")
+          /\ it' = IF cscript[i] \in {"sync", "kbool"} THEN it ELSE (IF pr.done THEN "false" ELSE "true")
+          /\ nx' = IF cscript[i] = "kbool" THEN NxAfter(pr) ELSE nx
     /\ pc' = "idle"
     /\ UNCHANGED <<pr, bst, pendk, nawait, bscript, cscript, got, finAt, loc, par, alive, pay>>
 
@@ -303,7 +359,7 @@ UnblockFuture ==
     /\ pc = "unb_fut"
     /\ LET i == pr.awaiting
            o == IF pr.done THEN Ob("end", 0, 0)
-                ELSE IF pr.exp THEN Ob("exc", 0, 0)
+                ELSE IF pr.exp THEN Ob("exc", ExcV, 0)
                 ELSE IF pr.ret # 0 THEN Ob("val", pr.ret, 0)
                 ELSE Ob("crash", 0, 0)       \* *_ret with _ret = nullptr
        IN obs' = [obs EXCEPT ![i] = o]
@@ -311,12 +367,13 @@ UnblockFuture ==
     \* _awaiting(*_ret): the future's value is COPY constructed from the yielded object, whatever it is (:132)
     /\ pay' = IF ~pr.done /\ ~pr.exp /\ pr.ret # 0 THEN [pay EXCEPT !.cp = @ + 1] ELSE pay
     /\ pc' = "idle"
-    /\ UNCHANGED <<bst, pendk, nawait, bscript, cscript, got, finAt, loc, par, it, alive>>
+    /\ UNCHANGED <<bst, pendk, nawait, bscript, cscript, got, finAt, loc, par, it, alive, nx>>
 
 (* the co_awaiting consumer coroutine is resumed by symmetric transfer (:154): next_awt::await_resume *)
 ResumeAwt ==
     /\ pc = "res_awt"
     /\ obs' = [obs EXCEPT ![Len(cscript)] = ObsNext(pr, 0)]
+    /\ nx' = IF cscript[Len(cscript)] = "kco" THEN NxAfter(pr) ELSE nx
     /\ pc' = "idle"
     /\ UNCHANGED <<pr, bst, pendk, nawait, bscript, cscript, got, finAt, loc, par, it, alive, pay>>
 
@@ -328,24 +385,25 @@ ExternalResolve(k) ==
        \/ Threaded /\ pc = "syncwait" /\ ~pr.block
     /\ bst' = "run" /\ pendk' = 0
     /\ pc' = "body"
-    /\ UNCHANGED <<pr, nawait, bscript, cscript, obs, got, finAt, loc, par, it, alive, pay>>
+    /\ UNCHANGED <<pr, nawait, bscript, cscript, obs, got, finAt, loc, par, it, alive, pay, nx>>
 
 (* ~generator: deleter -> handle.destroy() (:474-478).  Legal only while the body is parked at
    initial_suspend, at a co_yield or at final_suspend and no access is outstanding. *)
 Destroy ==
     /\ pc = "idle" /\ alive /\ bst \in {"init", "yield", "final"}
     /\ EarlyDestroy \/ ~ENABLED (NextSync("sync") \/ NextSync("begin") \/ NextSync("inc") \/ NextSync("postinc")
-                                  \/ NextAsync \/ NextFuture)
+                                  \/ NextSync("kbool") \/ NextAsync("coawait") \/ NextAsync("kco") \/ NextFuture)
     /\ alive' = FALSE
     /\ bst' = "gone"
     /\ loc' = IF bst = "yield" THEN [loc EXCEPT !.dtor = @ + 1] ELSE loc
     /\ par' = 0
+    /\ nx' = "none"             \* the kept object refers to the generator object: dropped before it
     /\ UNCHANGED <<pr, pendk, nawait, bscript, cscript, obs, got, finAt, it, pc, pay>>
 
 (* operations on the generator OBJECT (generator.h:472-480: the object owns the coroutine through a unique_ptr with a
    destroying deleter; move construction / assignment are the defaulted ones), made between accesses while the body is
    parked.  The coroutine frame with its locals follows the object; consumption continues through the new object;
-   iterators obtained from the old object are gone.
+   iterators and the kept next() object obtained from the old object are gone.
      "movector"      G b(std::move(a)); the moved-from a is destroyed (empty: nothing happens)
      "assign_X"      a target t -- default constructed ("empty"), never started ("fresh"), parked at a co_yield ("yield"),
                      finished ("final") -- is move ASSIGNED from the generator: t = std::move(a).  The coroutine t owned
@@ -361,12 +419,14 @@ ObjOp(kind) ==
     /\ LET started == IF kind \in {"assign_yield", "assign_final", "swap_yield", "swap_final"} THEN 1 ELSE 0
        IN pay' = [pay EXCEPT !.on = @ + 1, !.octor = @ + started, !.odtor = @ + started]
     /\ it' = "none"
+    /\ nx' = "none"
     /\ UNCHANGED <<pr, bst, pendk, nawait, bscript, cscript, obs, got, finAt, loc, par, alive, pc>>
 
 Next ==
     \/ \E k \in ObjKinds : ObjOp(k)
     \/ \E s \in SyncStyles : NextSync(s)
-    \/ NextAsync \/ NextFuture
+    \/ \E s \in AsyncStyles : NextAsync(s)
+    \/ NextFuture
     \/ BodyResume
     \/ \E k \in BodyKinds : BodyStep(k)
     \/ FinalSuspend \/ YieldSuspend \/ UnblockSync \/ SyncReturn \/ UnblockFuture \/ ResumeAwt
@@ -385,6 +445,8 @@ TypeOK ==
     /\ pc \in {"idle", "body", "fin", "ysusp", "unb_sync", "unb_fut", "res_awt", "syncwait"}   \* never "crash"
     /\ Len(obs) = Len(cscript)
     /\ it \in {"none", "true", "false"}
+    /\ nx \in {"none", "unknown", "item", "stale"}
+    /\ pay.ek \in {"none"} \cup ThrowKinds
 
 Quiet == pc = "idle" /\ bst # "await"      \* no access in progress or outstanding
 
@@ -401,6 +463,17 @@ SameSequence ==
     /\ \A i \in 1..Len(obs) : obs[i].r = "pending" => (i = Len(obs) /\ ~Quiet)
     \* a post-increment hands out the value that was current before it advanced
     /\ \A i \in 2..Len(obs) : cscript[i] = "postinc" => obs[i].p = obs[i-1].v
+    \* the kept next() object: every co_await of it delivers the NEXT item like a fresh next() does (it is an access
+    \* like any other above); a conversion that does not ask (state known) shows the item the consumer was given last
+    /\ \A i \in 1..Len(obs) : obs[i].r = "again" =>
+          /\ cscript[i] = "kbool"
+          /\ \E j \in 1..(i-1) :
+                /\ obs[j].r \in {"val", "exc"} /\ cscript[j] \in KeptStyles
+                /\ \A m \in (j+1)..(i-1) : obs[m].r \in {"again", "nomore"} /\ cscript[m] \in KeptStyles
+                /\ obs[i].v = IF obs[j].r = "val" THEN obs[j].v ELSE 900 + obs[j].v
+    /\ \A i \in 1..Len(obs) : cscript[i] = "kco" => obs[i].r # "again"
+    \* the cached state of the kept object is true iff the last access through it delivered an item / the exception
+    /\ (Quiet /\ nx = "item") => (~pr.done /\ (pr.ret # 0 \/ pr.exp))
 
 (* the yielded OBJECTS (copyable value type): the library never moves from or modifies what the body yielded.  A consumer
    reading through next()/value(), *it, range-for or co_await next() works on the object itself; gen() resolves its
@@ -422,7 +495,7 @@ SingleEOS ==
     /\ (Quiet /\ pr.done) =>
           /\ finAt \in 1..Len(obs)
           /\ obs[finAt].r = "end"
-          /\ \A i \in 1..Len(obs) : (i < finAt => obs[i].r = "val")
+          /\ \A i \in 1..Len(obs) : (i < finAt => obs[i].r \in {"val", "again"})
                                    /\ (i > finAt => obs[i].r \in {"end", "nomore"})
     /\ \A i \in 1..Len(obs) : obs[i].r \in {"end", "nomore"} =>
           /\ obs[i].v = 0
@@ -430,15 +503,21 @@ SingleEOS ==
           /\ obs[i].r = "nomore" => (pr.exp \/ cscript[i] = "future")
     /\ pr.done => pr.ret = 0 \/ pc = "fin"
 
-(* an exception leaving the body is reported by exactly the access during which it was thrown *)
+(* an exception leaving the body is reported by exactly the access during which it was thrown, and what is reported
+   is what was thrown -- whatever its type is, the library's own exception types included: it is never turned into
+   an end of the sequence or into another exception *)
 ExceptionAtPosition ==
     /\ (Quiet /\ pr.exp) =>
           /\ finAt \in 1..Len(obs)
           /\ obs[finAt].r = "exc"
-          /\ \A i \in 1..Len(obs) : (i < finAt => obs[i].r = "val")
-                                   /\ (i > finAt => obs[i].r = "nomore")
-    /\ \A i \in 1..Len(obs) : obs[i].r = "exc" => (pr.exp /\ i = finAt)
+          /\ \A i \in 1..Len(obs) : (i < finAt => obs[i].r \in {"val", "again"})
+                                   /\ (i > finAt => obs[i].r \in {"nomore", "again"})
+    /\ \A i \in 1..Len(obs) : obs[i].r = "exc" => (pr.exp /\ i = finAt /\ obs[i].v = ExcCode(bscript[Len(bscript)]))
     /\ ~(pr.exp /\ pr.done)
+    /\ pr.exp <=> pay.ek # "none"
+    /\ (bscript # <<>> /\ bscript[Len(bscript)] \in ThrowKinds) =>
+          (pay.ek = bscript[Len(bscript)] /\ pr.exp /\ ~pr.done /\ ExcV > 0)
+    /\ \A j \in 1..(Len(bscript) - 1) : bscript[j] \notin ThrowKinds
 
 (* what co_yield / co_yield nullptr returned is the argument of the access that resumed the body *)
 ArgDelivered ==
